@@ -283,6 +283,21 @@ void do_layout(Toks &tk, std::ostream &os)
                 for (size_t i = 0; i < R; i++)
                     os << (&sT(i, j, a) - b2) << " ";
         os << "\n";
+        // the const accessors (the ones the solver uses through `const affinity_t &`); addresses only, nothing is read
+        const tensor::Transpose<tensor::Tensor<double>> &csT = sT;
+        os << id << " transposed_const ";
+        for (size_t a = 0; a < T; a++)
+            for (size_t j = 0; j < C; j++)
+                for (size_t i = 0; i < R; i++)
+                    os << (&csT(i, j, a) - b2) << " ";
+        os << "\n";
+        const tensor::Tensor<double> &ct = t;
+        os << id << " idx_const ";
+        for (size_t a = 0; a < T; a++)
+            for (size_t j = 0; j < C; j++)
+                for (size_t i = 0; i < R; i++)
+                    os << (&ct(i, j, a) - base) << " ";
+        os << "\n";
     }
     {
         tensor::DiagonalTensor<double> d(R, T);
